@@ -208,18 +208,26 @@ pub enum Handle {
     ReadOnly(ReadOnlyCache),
 }
 
-/// What a recording checker saw: (content of x, content of y) per call.
-pub type CheckerLog = Arc<Mutex<Vec<(Vec<u8>, Vec<u8>)>>>;
+/// What a recording checker saw per call: inode and content of x and y.
+pub type CheckerLog = Arc<Mutex<Vec<(Ino, Ino, Vec<u8>, Vec<u8>)>>>;
+
+fn ino_of(f: &File) -> Ino {
+    match (f.sim_fd(), k::current()) {
+        (Some(fd), Some(ctx)) => ctx.sim.lock().procs[ctx.proc].fds.get(&fd).map(|e| e.ino).unwrap_or(0),
+        _ => 0,
+    }
+}
 
 fn recording_checker(log: CheckerLog) -> impl Fn(&mut File, &mut File) -> std::io::Result<()> + Sync + Send + std::panic::RefUnwindSafe + std::panic::UnwindSafe + 'static {
     let log = std::panic::AssertUnwindSafe(log);
     move |x: &mut File, y: &mut File| {
         let mut a = Vec::new();
         let mut b = Vec::new();
+        let (ix, iy) = (ino_of(x), ino_of(y));
         x.read_to_end(&mut a)?;
         y.read_to_end(&mut b)?;
         let eq = a == b;
-        log.lock().unwrap().push((a, b));
+        log.lock().unwrap().push((ix, iy, a, b));
         if eq {
             Ok(())
         } else {
@@ -668,6 +676,10 @@ pub fn exec_op(env: &OpEnv, op_id: u32, hidx: usize, h: &Handle, kidx: usize, ke
                     |dst, old| {
                         *populate_called.lock().unwrap() = true;
                         if let Some(mut o) = old {
+                            // the statement does not promise that `old` is
+                            // rewound after the judge consumed it
+                            use std::io::Seek;
+                            let _ = o.seek(std::io::SeekFrom::Start(0));
                             let mut b = Vec::new();
                             let _ = o.read_to_end(&mut b);
                             *populate_old.lock().unwrap() = Some(b);
@@ -1013,8 +1025,11 @@ pub fn make_observer(cfg: InvCfg, state: Arc<Mutex<InvState>>) -> k::Observer {
                 for &ro in &cfg.readonly {
                     let root = &cfg.dirs[ro].path;
                     if p == root || p.starts_with(&format!("{}/", root)) {
-                        let atime_only = matches!(r.kind, K::Utimens | K::Futimens) && r.mtime == kismet_vfs::simfs::UTIME_OMIT;
-                        if !atime_only {
+                        // a utimens that leaves the stored mtime as it was and
+                        // does not move atime backwards changes nothing the
+                        // statement cares about
+                        let harmless = matches!(r.kind, K::Utimens | K::Futimens) && fs.inodes.get(&r.ino).map(|i| i.mtime == r.prev_mtime && i.atime >= r.prev_atime).unwrap_or(false);
+                        if !harmless {
                             st.violations.push(("readonly", format!("mutating call under read-only root {}: {}", root, r.short())));
                         }
                     }
